@@ -397,9 +397,11 @@ theorem frame_hitTask (origin s : Nat) (acc : State × Bool) (t : Nat) :
         · exact Frame.refl _
         · simp only []
           split
+          · exact ((frame_taskCancel _ _ _).trans
+              (Frame.of_setScope _ _ _ (by constructor <;> rfl))).trans
+              (Frame.of_setTask _ _ _ (by constructor <;> simp))
           · exact (frame_taskCancel _ _ _).trans
-              (Frame.of_setScope _ _ _ (by constructor <;> rfl))
-          · exact frame_taskCancel _ _ _
+              (Frame.of_setTask _ _ _ (by constructor <;> simp))
       · exact Frame.refl _
 
 theorem frame_deliverGo (fuel : Nat) (st : State) (origin s : Nat) :
@@ -826,13 +828,15 @@ def exitTail (st : State) (t s : Nat) (ev : ExcVal) : State × ExitResult :=
   else
     let st :=
       if sc.pending > 0 then
+        let drop := fun (st : State) =>
+          st.setTask t (fun x => { x with nDropped := x.nDropped + sc.pending })
         let st :=
           match sc.parent with
           | some p =>
             if (st.scopes p).host = some t then
               st.setScope p (fun x => { x with pending := x.pending + sc.pending })
-            else st
-          | none => st
+            else drop st
+          | none => drop st
         st.setScope s (fun x => { x with pending := 0 })
       else st
     (fin st, .passed)
@@ -858,13 +862,15 @@ def exitTailO (st : State) (t s : Nat) (ev : ExcVal) : Option (State × ExitResu
   else
     let st :=
       if sc.pending > 0 then
+        let drop := fun (st : State) =>
+          st.setTask t (fun x => { x with nDropped := x.nDropped + sc.pending })
         let st :=
           match sc.parent with
           | some p =>
             if (st.scopes p).host = some t then
               st.setScope p (fun x => { x with pending := x.pending + sc.pending })
-            else st
-          | none => st
+            else drop st
+          | none => drop st
         st.setScope s (fun x => { x with pending := 0 })
       else st
     some (fin st, .passed)
@@ -914,11 +920,14 @@ theorem exitTail_cframe (st : State) (t s : Nat) (ev : ExcVal) :
   · refine ⟨_, rfl, ?_⟩
     split
     · refine CFrame.trans ?_ (h0 _)
+      have hd : ∀ (a : State) (n : Nat),
+          CFrame a (a.setTask t (fun x => { x with nDropped := x.nDropped + n })) :=
+        fun a n => (Frame.of_setTask _ _ _ (by constructor <;> simp)).cframe
       split
       · split
         · exact hp _ _ _ (fun y => by constructor <;> rfl)
-        · exact CFrame.refl _
-      · exact CFrame.refl _
+        · exact hd _ _
+      · exact hd _ _
     · exact CFrame.refl _
 
 /-- `__exit__` = its guard, the pure update `exitPre`, then cancellation machinery -/
